@@ -370,6 +370,21 @@ func monitor(c hxlib.Case, outs []string) (vs []hxlib.Violation) {
 				}
 				s.expect, s.fuzzy, s.pending = nil, false, 0
 			}
+		case "ppushn": // one call of a provider's push function with k records: k pushes by the injected database, in order
+			if o != "ok" || len(f) != 7 {
+				break
+			}
+			k, _ := strconv.Atoi(f[2])
+			n0, _ := strconv.ParseInt(f[4], 10, 64)
+			for j := 0; j < k; j++ {
+				w := mRec{key: f[3], n: n0 + int64(j), s: f[5], flags: flagsOf(unq(f[6])), ok: true}
+				for _, s := range subs {
+					if s.active && s.q.matches(w) && s.maySee(w) && s.pending < feedCapStatement {
+						s.expect = append(s.expect, w.String())
+						s.pending++
+					}
+				}
+			}
 		case "putmany":
 			// Interface.PutMany: a write through an interface — the property demands delivery and pre-put hooks all the same
 			if of[0] != "ok" {
